@@ -558,3 +558,22 @@ func sortedKeys[V any](m map[string]V) []string {
 	sort.Strings(out)
 	return out
 }
+
+// describeHolders renders the model state (the live holders and where each is charged) for witnesses.
+func (m *model) describeHolders() []string {
+	var out []string
+	for _, h := range m.holders {
+		if h.dead() {
+			continue
+		}
+		if h.Kind == kDirect && h.Mem == 0 {
+			continue
+		}
+		d := fmt.Sprintf("h%d %s holds %s charged to %v", h.ID, m.shape(h), h.own(), m.charges(h))
+		if h.Kind == kConn {
+			d += " endpoint " + endpoints[h.EP].Addr
+		}
+		out = append(out, d)
+	}
+	return out
+}
